@@ -29,7 +29,7 @@ func (c *Ctx) poolTypestate(rule string, fnNames ...string) int {
 			}
 			for i := range p.Events {
 				ev := &p.Events[i]
-				if ev.Kind != core.EvCall || ev.Depth != 0 {
+				if ev.Kind != core.EvCall || !own(ev) {
 					continue
 				}
 				isPut := (ev.Static != nil && extName(ev.Static) == "(*sync.Pool).Put") || (ev.Static == nil && ev.Method != nil && ev.Method.Name() == "Put")
